@@ -448,7 +448,7 @@ func (vc *VC) atCallFor(callee string) *AtCall {
 	vc.callCount[callee]++
 	k := vc.callCount[callee]
 	for _, a := range vc.spec.AtCalls {
-		if a.Callee == callee && a.N == k {
+		if a.Callee == callee && (a.N == k || a.N == -1) {
 			if vc.atUsed == nil {
 				vc.atUsed = map[*AtCall]bool{}
 			}
